@@ -19,7 +19,7 @@ const tfAck = 0x1000
 type c11Case struct {
 	Followers int      `json:"f"`
 	Mode      uint     `json:"m"`     // 0 all (mixed), 1 majority, 2 all
-	Fates     []string `json:"fates"` // per follower: deliver | held | late | cut
+	Fates     []string `json:"fates"` // per follower: deliver | held | late | cut | negative (the follower cannot apply the record and says so)
 	Interf    string   `json:"i"`     // none | duplicate | unlock | waiter-behind | demote
 	Value     bool     `json:"v"`
 	FromQueue bool     `json:"q"` // the ack lock is granted from the wait queue
@@ -38,7 +38,7 @@ func (c c11Case) required() int {
 
 func c11Cases(quick bool) []EnumCase {
 	var out []EnumCase
-	fates := []string{"deliver", "held", "late", "cut"}
+	fates := []string{"deliver", "held", "late", "cut", "negative"}
 	var rec func(f int, cur []string, emit func([]string))
 	rec = func(f int, cur []string, emit func([]string)) {
 		if len(cur) == f {
@@ -99,6 +99,21 @@ func evalC11(c *Ctx, cs EnumCase) EnumResult {
 		newv := protocol.NewLockCommandDataSetString("after").Data
 		// key 1 carries a value "before", held by id 9 with Count 1 so that id 1 can hold next to it
 		_ = other.Send(wire.BinFrame(withEF(hapi.Cmd{Type: 1, Req: 50, Key: 1, Id: 9, Expried: 600, Count: 1, Data: pre}, efZeroAof)))
+		other.TakeBin()
+		vrt.AdvanceTo(vrt.Elapsed() + 200*ms)
+		for i, f := range k.Fates {
+			if f == "negative" {
+				// the follower's copy of the key is filled up behind the leader's back (an extra holder next to
+				// id 9), so it cannot apply the ack lock's record and acknowledges it negatively
+				fc := cl.Nodes[i+1].NewMemClient("x")
+				fc.Do(hapi.Cmd{Type: 1, Req: 90, Key: 1, Id: 77, Flag: 0x04, Expried: 600, Count: 5}.Build())
+				vrt.Quiesce()
+				if fk := cl.Nodes[i+1].Snapshot().Key(0, [16]byte{15: 1}); fk == nil || len(fk.Holds) != 2 {
+					engErr = fmt.Sprintf("could not fill the key on follower %d", i+1)
+					return
+				}
+			}
+		}
 		if k.FromQueue {
 			// id 8 fills the key (Count 1 => 2 holders), the ack lock must queue and is granted when id 8 unlocks
 			_ = other.Send(wire.BinFrame(withEF(hapi.Cmd{Type: 1, Req: 51, Key: 1, Id: 8, Expried: 600, Count: 1}, efZeroAof)))
@@ -121,7 +136,7 @@ func evalC11(c *Ctx, cs EnumCase) EnumResult {
 				return
 			}
 			if f != "deliver" {
-				l.AtoB.Hold = true
+				l.AtoB.Hold = true // "negative": the refusal travels like a late acknowledgement
 			}
 		}
 		t0 := vrt.Elapsed()
@@ -160,7 +175,7 @@ func evalC11(c *Ctx, cs EnumCase) EnumResult {
 		}
 		vrt.AdvanceTo(t0 + 1500*ms)
 		for i, f := range k.Fates {
-			if f == "late" {
+			if f == "late" || f == "negative" {
 				repl[i+1].AtoB.Hold = false
 			}
 		}
@@ -186,6 +201,11 @@ func evalC11(c *Ctx, cs EnumCase) EnumResult {
 			}
 		}
 		obs = fmt.Sprintf("requester %s; others %s; key1 %s value %q", binStr(mine), binStr(rest), holds, value)
+		for i := 1; i <= k.Followers; i++ {
+			if fk := cl.Nodes[i].Snapshot().Key(0, k1); fk != nil {
+				obs += fmt.Sprintf("; follower %d key1 %s", i, holdsStr(*fk))
+			}
+		}
 
 		// ---- oracle
 		acks := 1 // the leader's own log write
@@ -210,6 +230,11 @@ func evalC11(c *Ctx, cs EnumCase) EnumResult {
 		// acknowledgements do arrive the request may still succeed (the record is logged and acknowledged),
 		// so both outcomes are accepted there
 		either := k.Interf == "demote" && waitingAt200 && expectOK
+		for _, f := range k.Fates {
+			if f == "negative" && expectOK {
+				either = true // a refusal may fail the request even where the others would make a quorum
+			}
+		}
 		if k.Interf == "quit-leader" && waitingAt200 {
 			// the node leaves the leader role first and sweeps its pending acknowledgement waits afterwards:
 			// leadership is lost, the requester must get an error whatever arrives later
